@@ -1,11 +1,22 @@
-# msgs.py — a user-defined message type (the ROS-message style rtamt supports: variables that are objects, read and written through fields)
+# msgs.py — a user-defined message type (the ROS-message style rtamt supports: variables that are objects, read and written through fields,
+# also nested ones); __slots__ as generated message classes have them: an attribute that is not a field cannot be created
+class Inner(object):
+    __slots__ = ('v',)
+
+    def __init__(self, v=0.0):
+        self.v = v
+
+
 class Msg(object):
+    __slots__ = ('value', 'other', 'inner')
+
     def __init__(self, value=0.0, other=0.0):
         self.value = value
         self.other = other
+        self.inner = Inner(value)
 
     def __eq__(self, o):
-        return isinstance(o, Msg) and (self.value, self.other) == (o.value, o.other)
+        return isinstance(o, Msg) and (self.value, self.other, self.inner.v) == (o.value, o.other, o.inner.v)
 
     def __repr__(self):
         return 'Msg(%r)' % (self.value,)
